@@ -42,6 +42,8 @@ Line-protocol driver for the C13 models (calendar, interval calculators, query p
   rollup <src> <tgt> <srcFamilyTime> <slot> -> <targetFTime> <ratio> <baseSlot> <ts> <slot(ts)> | panic
   goc <c> | t1 t2 ... | i1 i2 ...   -> T <obj per writer> R <registered obj per writer> opened <n>
   gdfz <zone> <c> qs qe | t1 t2 ..     -> the range lookup with time.Local = the zone (family starts, sorted) | none
+  gdfzt <c> qs qe | t1 t2 .. | off0 at1 off1 ..
+                                    -> the range lookup with time.Local = the transition-list zone (daylight saving)
   goce <c> | t1 .. | i1 e i2 .. | p1 ..  -> writers + Shard.EvictSegment() (`e`) in the schedule, families of
                                        p1.. on disk: T <obj|-> R <registered obj|-> E <error flags> opened <n>
                                        (writers Shard.GetOrCrateDataFamily(t1), (t2), .. on fresh segments; the
@@ -304,6 +306,22 @@ def step (st : Unit) (ws : List String) : Unit × String :=
             if r.isEmpty then "none" else Proto.joinInt r
           | _ => "unknown-variant"
         | _, _, _, _, _ => "bad-op"
+      | _ => "bad-op"
+    | "gdfzt" :: rest =>
+      let rec pairs2 : List Int → Option (List (Int × Int))
+        | [] => some []
+        | a :: o :: r => (pairs2 r).map ((a, o) :: ·)
+        | [_] => none
+      match splitBar rest with
+      | [[c, qs, qe], ts, off0 :: trs] =>
+        match parseCalc c, qs.toInt?, qe.toInt?, ints ts, off0.toInt?, (ints trs).bind pairs2 with
+        | some c, some qs, some qe, some ts, some off0, some trs =>
+          match lookupVariant with
+          | some .ownSegment =>
+            let r := (sortInts (getDataFamiliesZ (Zone.ofTransitions off0 trs) c ⟨qs, qe⟩ ts)).eraseDups
+            if r.isEmpty then "none" else Proto.joinInt r
+          | _ => "unknown-variant"
+        | _, _, _, _, _, _ => "bad-op"
       | _ => "bad-op"
     | "batch" :: c :: rest =>
       match parseCalc c, ints rest with
